@@ -262,7 +262,7 @@ class Verdict:
         paths = []
         if self.violations:
             os.makedirs(REPLAYS, exist_ok=True)
-            for summary, replay in self.violations[:5]:
+            for summary, replay in self.violations[:int(os.environ.get("VERIF_MAXSHOW", "5"))]:
                 blob = json.dumps(replay, sort_keys=True, indent=1)
                 h = hashlib.sha1(blob.encode()).hexdigest()[:10]
                 path = os.path.join(REPLAYS, "%s-%s.json" % (self.pid, h))
